@@ -993,6 +993,10 @@ class ChunksOverride(ArrayExpr):
         # Pure 1:1 alias layer -- no data moves.
         return TransferBytes(0.0, 0.0)
 
+    def _requires_grid_preservation(self, dependency):
+        # ``_chunks`` re-labels the input's blocks one to one
+        return True
+
     def _frisky_layer(self):
         from dask_array._frisky.blocks import BlocksLayer
 
